@@ -296,7 +296,8 @@ def run(ctx):
                 for kq in hist:
                     got = [(int(m.idx), canon(float(m.distance))) for m in used.kbest_matches(k=kq)]
                     want = [(int(m.idx), canon(float(m.distance))) for m in mk().kbest_matches(k=kq)]
-                    if sorted(got) != sorted(want):
+                    # tied candidates may come back with either index (C14: "indices equal up to ties")
+                    if sorted(d_ for _, d_ in got) != sorted(d_ for _, d_ in want):
                         res.violations.append({"clause": "results do not depend on earlier calls on the same object",
                                                "routine": "SubsequenceSearch.kbest_matches(use_c=%s)" % use_c_,
                                                "history": list(hist), "k": kq, "got": got, "fresh": want,
